@@ -29,7 +29,7 @@ func init() {
 
 func c15(r *Run) {
 	w := r.W
-	ro := rolesOf(w)
+	ro := r.roles()
 	linux := w.Cfg.GOOS == "linux"
 	disp, _ := dispatchFn(w)
 
@@ -172,7 +172,7 @@ func c15(r *Run) {
 		if linux {
 			ec := findIns(fn, func(i ssa.Instruction) bool { f := calleeOf(i); return f != nil && f.Name() == "EpollCreate" })
 			if len(ec) != 1 {
-				broken("ANCHOR-LOST C15: %d EpollCreate calls in openDefaultPoll", len(ec))
+				r.absentf(" C15: %d EpollCreate calls in openDefaultPoll", len(ec))
 			}
 			created := cmpAtom(errOfCall(ec[0].(ssa.Value), 1), isNilConst, eqRel)
 			closeOf := func(suffix string) func(ssa.Instruction) bool {
